@@ -292,6 +292,25 @@ RULE_H = ('exhaustive enumeration of call HISTORIES: every valid word up to the 
           '(diagonal pivots / other pivots / old pivot fails the threshold half-way / rescaled), internal and user-supplied workspace; the state of a history is the history itself replayed on fresh objects '
           '(never merged on observable state); distinct_nontrivial counts distinct (history, bits of L/U/permutations/solutions) outcomes')
 
+def kern(prec, fam, grid, variant='q', slices=NS):
+    return [{'engine': 'mckern/mckern.c', 'variant': variant, 'prec': prec,
+             'args': ['--prop', 'C19', '--family', fam, '--grid', grid, '--ncp', '0', '--slice', '%d/%d' % (i, slices)]} for i in range(slices)]
+
+
+def jobs_C19(tier):
+    j = []
+    grid = 'quick' if tier == 'quick' else 'full'
+    for p in 'sdcz':
+        for fam in ('gemv', 'gemm', 'trsv', 'langs', 'convert'):
+            j += kern(p, fam, grid, slices=(4 if (tier == 'quick' and fam in ('langs', 'convert', 'gemm')) else NS))
+    if tier != 'quick':
+        for p in 'sdcz':
+            j += kern(p, 'trsv', 'full', variant='qv')
+        for p in 'dz':
+            j += kern(p, 'trsv', 'quick', variant='ql') + kern(p, 'convert', 'full', variant='ql') + kern(p, 'gemv', 'quick', variant='ql')
+    return j
+
+
 RULE_X = ('exhaustive enumeration: every structurally nonsingular 0/1 pattern of the stated size with generic values x 6 scalings (none, rows, columns, both by powers of two, '
           'uniformly huge, uniformly tiny: they force every equed outcome) x trans {N,T,C} x storage {NC,NR} x fact {DOFACT, EQUILIBRATE, FACTORED after DOFACT, FACTORED after EQUILIBRATE} '
           'x nrhs x leading dimensions (tight and padded, ldb != ldx) x thresholds x threads, plus a graded family n=4..6 with prescribed singular values (one decade apart up to 1e13 / 1e4); '
@@ -369,6 +388,11 @@ SPECS = {
     'C18': {'jobs': lambda t: jobs_hist('C18', t), 'level': 'exploration', 'rule': RULE_H + '; after every history (and after 1-2 repetitions of 4 extra events: singular call, failed allocation, expert-driver call with other options, another matrix size) a fixed probe (first factorization + 2 solves, 1 thread) is run and its complete output bits are compared with the same probe executed in a freshly forked process',
             'assumptions': ['one precision per process: carry-over between the s/d/c/z copies of the static state is not exercised (separate translation units with separate statics)'],
             'deadline': {'quick': 600, 'thorough': 3 * 3600}},
+    'C19': {'jobs': jobs_C19, 'level': 'exploration',
+            'rule': 'all 0/1 patterns m,n<=3 (products, norms, conversions) / all structurally nonsingular patterns n<=4 x factor options (triangular solves with the real supernodal L and U) x the full argument grid of each routine (op N/T/C, alpha/beta incl. 0 and 1, increments +-1 +-2, leading dimensions); dense long-double reference with componentwise rounding bounds; padding bytes checked; fork isolation per call',
+            'assumptions': ['values: one generic and one small-integer table', 'quick tier: an input class in which the library has killed the process 3 times per job is not executed further (counted); the thorough tier executes every case',
+                            'triangular solves are judged by the componentwise backward-error bound gamma(n+2)|T||x| with L,U as stored', 'NCP (permuted view) inputs to sp_?gemv are outside the statement and switched off (--ncp 0)'],
+            'deadline': {'quick': 300, 'thorough': 3600}},
     'C09': {'jobs': jobs_C09, 'level': 'exploration', 'rule': RULE_SEQ,
             'assumptions': ['checker wellformed() implements the statement literally; n <= 12'],
             'deadline': {'quick': 600, 'thorough': 3 * 3600}},
